@@ -410,10 +410,12 @@ pub fn orchestrate(check: &dyn Check, opts: &CheckOpts) -> i32 {
             let cur = current_case_path(std::process::id(), w as u64);
             let noted: Option<Value> = std::fs::read_to_string(&cur).ok().and_then(|t| serde_json::from_str(&t).ok());
             let _ = std::fs::remove_file(&cur);
+            // (killed by a signal, or gone without a verdict: e.g. replaced by another program)
             let crashed_again = noted.as_ref().and_then(|n| {
                 let case_s = serde_json::to_string(&n["case"]).ok()?;
                 match run_child(&["exec-case".to_string(), id.to_string()], Some(&case_s)) {
                     Some((code, _)) if code >= 1000 => Some(code - 1000),
+                    Some((_, out)) if !out.lines().any(|l| l.starts_with('{')) => Some(0),
                     _ => None,
                 }
             });
@@ -584,7 +586,11 @@ pub fn orchestrate(check: &dyn Check, opts: &CheckOpts) -> i32 {
     for (case, origin, sig) in crashed.iter().take(3) {
         let case_s = serde_json::to_string(case).unwrap_or_default();
         let class = format!("{id}/crash");
-        let detail = format!("the process executing this case was killed by signal {sig} (stack overflow or abort in the code under test), again in a fresh process");
+        let detail = if *sig == 0 {
+            "the process executing this case ended without a verdict (the code under test exited or replaced the process), again in a fresh process".to_string()
+        } else {
+            format!("the process executing this case was killed by signal {sig} (stack overflow or abort in the code under test), again in a fresh process")
+        };
         let name = format!("{id}-{:016x}.json", splitmix(case_s.len() as u64 ^ splitmix(case_s.bytes().fold(0u64, |a, b| a.wrapping_mul(131).wrapping_add(b as u64)))));
         let path = root.join("replays").join(&name);
         let replay = json!({
